@@ -53,6 +53,17 @@ impl Stream {
     }
 }
 
+/// waker of one write attempt: forwards to the application task's waker until the attempt is abandoned
+struct AttemptWaker {
+    inner: std::task::Waker,
+    alive: std::sync::Arc<std::sync::atomic::AtomicBool>,
+}
+impl std::task::Wake for AttemptWaker {
+    fn wake(self: std::sync::Arc<Self>) {
+        if self.alive.load(std::sync::atomic::Ordering::SeqCst) { self.inner.wake_by_ref(); }
+    }
+}
+
 #[derive(Clone, Debug, Serialize, Deserialize, PartialEq)]
 pub enum WOp {
     /// write_all(n bytes) in chunks of at most `chunk`
@@ -166,7 +177,24 @@ pub async fn run_writer(mut w: UtpStreamWriteHalf, mut ops: tokio::sync::mpsc::U
                     buf.resize(c, 0);
                     stream.fill(off, &mut buf);
                     let ts = now_us(t0);
-                    let wr = tokio::select! { biased; _ = abort.notified() => { dropped = true; break 'outer; } x = w.write(&buf) => x };
+                    // one chunk size in eight: the application gives a blocked write 25 ms, abandons it and tries again from
+                    // another task (select!/timeout patterns, a write half handed from task to task). Each attempt polls with
+                    // its own waker; the waker of an abandoned attempt stops working, like that of a task that is gone.
+                    let handoff = chunk % 8 == 5;
+                    let wr = tokio::select! { biased; _ = abort.notified() => { dropped = true; break 'outer; } x = async {
+                        if !handoff { return w.write(&buf).await; }
+                        loop {
+                            let alive = std::sync::Arc::new(std::sync::atomic::AtomicBool::new(true));
+                            let attempt = std::future::poll_fn(|cx| {
+                                let gw = std::task::Waker::from(std::sync::Arc::new(AttemptWaker { inner: cx.waker().clone(), alive: alive.clone() }));
+                                tokio::io::AsyncWrite::poll_write(std::pin::Pin::new(&mut w), &mut std::task::Context::from_waker(&gw), &buf)
+                            });
+                            match tokio::time::timeout(std::time::Duration::from_millis(25), attempt).await {
+                                Ok(x) => break x,
+                                Err(_) => alive.store(false, std::sync::atomic::Ordering::SeqCst),
+                            }
+                        }
+                    } => x };
                     match wr {
                         Ok(0) => {
                             log.lock().write_err = Some("write returned Ok(0)".into());
